@@ -1,3 +1,3 @@
 import MpfVerif.DriverLoop
-/-! Driver of the C11 model (stub until the model exists): answers bad-op to everything. -/
-def main : IO UInt32 := MpfVerif.runDriver (fun (s : Unit) _ => (s, "bad-op")) ()
+import MpfVerif.Model.Player
+def main : IO UInt32 := MpfVerif.runDriver MpfVerif.Player.driverStep MpfVerif.Player.driverInit
